@@ -387,6 +387,23 @@ impl Lut {
     }
 }
 
+#[cfg(feature = "verif-hooks")]
+impl Lut {
+    /// Verification hook: apply one successor step of the `all_functions` iterator to
+    /// this table; returns false when the table wrapped around to zero
+    pub fn verif_successor(&mut self) -> bool {
+        next_inplace(self.num_vars, self.table.as_mut())
+    }
+
+    /// Verification hook: the `all_functions` iterator, started at an arbitrary table
+    pub fn verif_all_functions_from(start: &Lut) -> LutIterator {
+        LutIterator {
+            lut: start.clone(),
+            ok: true,
+        }
+    }
+}
+
 #[doc(hidden)]
 pub struct LutIterator {
     lut: Lut,
